@@ -20,6 +20,8 @@ def candidate_params(desc, pars):
     for l in desc["links"]:
         for a in ("rho_crit", "v_free", "a", "rho_max"):
             c.append((l["id"], a))
+        if l.get("vsl"):
+            c.append((l["id"], "alpha"))  # the compliance factor of a speed-limited link (calibrating driver compliance)
     for o in desc["origins"]:
         if o["kind"] in ("ramp", "simple"):
             c.append((o["id"], "C"))
@@ -222,6 +224,14 @@ class CompileCase:
         for k_, v_ in drive.splat_all_constants({}).items():
             if k_ not in self.parameters and k_ != "name":
                 other.setdefault(k_, v_)
+        # one settings dict splatted into both `net.step(**cfg)` and `to_function(net, **cfg)` (the repository's own tests do
+        # that): the positivity switches ride along here as well, where they have nothing to act on - the function is that
+        # of the step that was taken
+        if D.FORMS["rng"] is not None and D.FORMS["rng"].random() < 0.35:
+            for nm_ in ("positive_next_queue", "positive_next_speed", "positive_next_density", "positive_init_queue", "positive_init_density"):
+                if D.FORMS["rng"].random() < 0.5:
+                    other.setdefault(nm_, D.FORMS["rng"].choice((True, 1)))
+            D.FORM_STATS["to_function: positivity switches riding along"] = D.FORM_STATS.get("to_function: positivity switches riding along", 0) + 1
         # the compactness level is documented by inequalities (<= 0, == 1, > 1): any integer of the class
         # asks for the same function
         level = compact
